@@ -510,13 +510,28 @@ func (w *Writer) ForceSeal() (uint64, error) {
 		return w.writer.indexStart, nil
 	}
 
+	// Save the state we need to restore if writing the index fails. Otherwise
+	// indexStart stays set and a retry would take the "already sealed" path above
+	// and report a seal whose index block never reached the disk.
+	beforeBuf := w.writer.commitBuf
+	beforeCRC := w.writer.crc
+	beforeWriteOffset := w.writer.writeOffset
+	rollback := func() {
+		w.writer.commitBuf = beforeBuf
+		w.writer.crc = beforeCRC
+		w.writer.indexStart = 0
+		w.writer.writeOffset = beforeWriteOffset
+	}
+
 	// Seal the segment! We seal it by writing an index frame before we commit.
 	if err := w.appendIndex(); err != nil {
+		rollback()
 		return 0, err
 	}
 
 	// Write the commit frame
 	if err := w.appendCommit(); err != nil {
+		rollback()
 		return 0, err
 	}
 
